@@ -15,6 +15,21 @@ fn main() {
             };
             icverif::props::run_check(&args[2], tier)
         }
+        "alphabet" => {
+            for seed in icverif::seeds::SEEDS {
+                for op in icverif::seeds::alphabet_full() {
+                    let t = std::time::Instant::now();
+                    let mut um = icverif::seeds::load(seed);
+                    let r = op.apply(&mut um);
+                    let t1 = t.elapsed().as_secs_f64();
+                    let o = icverif::obs::observe(&um, &Default::default());
+                    let t2 = t.elapsed().as_secs_f64();
+                    let ur = um.undo();
+                    println!("{} {:?} -> {:?} apply={:.4}s obs={:.4}s fields={} undo={:?} total={:.4}s", seed, op, r, t1, t2 - t1, o.len(), ur, t.elapsed().as_secs_f64());
+                }
+            }
+            0
+        }
         "replay" => icverif::props::replay_file(&args[2]),
         _ => 2,
     };
